@@ -110,9 +110,139 @@ fn gen_early_response(rng: &mut Rng) -> Case {
     Case { cfg, reqs, hs, rounds }
 }
 
+/// `Expect: 100-continue` on a request with a content-length or chunked body (dispatcher state
+/// ExpectCall): the expect service accepts, rejects with Err (no / sized error body) or pends k polls
+/// first; the client sends the body anyway -- with the head, after the 417 / 100, split, or never --
+/// followed or not by another request; optionally a plain request in front (the expect request is
+/// then popped from the queue when it arrives in the same read).
+fn gen_expect(rng: &mut Rng) -> Case {
+    let cfg = Cfg {
+        ka: *rng.pick(&[5000, 5000, 5000, 0, -1]),
+        req_to: *rng.pick(&[0, 5000]),
+        disc_to: *rng.pick(&[0, 1000, 1000, 3000]),
+        half_closed: rng.chance(1, 2),
+        signal: false,
+    };
+    let chunked = rng.chance(1, 2);
+    let blen = rng.range(2, 40) as usize;
+    let reject = rng.chance(2, 3);
+    let pend = *rng.pick(&[0u32, 0, 1, 2]);
+    let ebody = *rng.pick(&[0usize, 0, 9]);
+    let ebpend = if ebody > 0 { *rng.pick(&[0u32, 0, 1]) } else { 0 };
+    let lead = rng.chance(1, 4);
+    let follow = rng.chance(1, 2);
+    let mut reqs = vec![];
+    let mut hs = vec![];
+    if lead {
+        let r = Req { head: false, v11: true, copt: 0, body: 0, blen: 0 };
+        hs.push(vec![if rng.chance(1, 2) { HAct::Pend } else { HAct::Drop }, HAct::Respond { copt: 0, body: *rng.pick(&[0usize, 4]), bpend: 0 }]);
+        reqs.push(r);
+    }
+    let x = reqs.len();
+    let xr = Req { head: false, v11: true, copt: *rng.pick(&[0u8, 0, 0, 2, 1]), body: if chunked { 2 } else { 1 }, blen };
+    let mut hx = vec![HAct::Expect { pend, status: if reject { 417 } else { 0 }, body: ebody, bpend: ebpend }];
+    hx.extend(gen_handler(rng, &xr));
+    reqs.push(xr);
+    hs.push(hx);
+    if follow {
+        reqs.push(Req { head: false, v11: true, copt: 0, body: 0, blen: 0 });
+        hs.push(vec![HAct::Respond { copt: 0, body: 6, bpend: 0 }]);
+    }
+    // body items
+    let mut body: Vec<Item> = vec![];
+    if chunked {
+        for _ in 0..rng.range(1, 3) {
+            body.push(Item::Data { n: rng.range(1, 30) as usize });
+        }
+    } else {
+        let first = rng.range(1, blen as u64 - 1) as usize;
+        body.push(Item::Data { n: first });
+        body.push(Item::Data { n: blen - first });
+    }
+    let wb = |rng: &mut Rng| reject && rng.chance(1, 12);
+    let mut rounds: Vec<Round> = vec![];
+    let mut t = 0u64;
+    let mut push = |rounds: &mut Vec<Round>, delta: u64, arrive: Vec<Item>, wblock: bool, rng: &mut Rng| {
+        let nt = if rounds.is_empty() { t } else { step_time(t, delta, rng) };
+        rounds.push(Round { adv: nt - t, arrive, rd: 0, wblock, sd: 0, signal: false });
+        t = nt;
+    };
+    let mut r0 = vec![];
+    if lead {
+        r0.push(Item::Req { i: 0 });
+        if rng.chance(1, 2) {
+            push(&mut rounds, 0, std::mem::take(&mut r0), false, rng);
+        }
+    }
+    r0.push(Item::Req { i: x });
+    // 0: the whole body with the head, 1: the whole body later, 2: split, 3: never (the client obeys)
+    let mode = rng.below(if follow { 3 } else { 4 });
+    let tail: Vec<Item> = match mode {
+        0 => {
+            r0.extend(body.drain(..));
+            r0.push(Item::End);
+            vec![]
+        }
+        1 => {
+            let mut v: Vec<Item> = body.drain(..).collect();
+            v.push(Item::End);
+            v
+        }
+        2 => {
+            r0.push(body.remove(0));
+            let mut v: Vec<Item> = body.drain(..).collect();
+            v.push(Item::End);
+            v
+        }
+        _ => vec![],
+    };
+    let follow_with_body_end = follow && rng.chance(1, 2);
+    if mode == 0 && follow_with_body_end {
+        r0.push(Item::Req { i: x + 1 });
+    }
+    let w = wb(rng);
+    push(&mut rounds, 0, r0, w, rng);
+    for _ in 0..pend + rng.below(2) as u32 {
+        let d = *rng.pick(&[0u64, 3, 17]);
+        let w = wb(rng);
+        push(&mut rounds, d, vec![], w, rng);
+    }
+    if !tail.is_empty() {
+        let mut v = tail;
+        if follow_with_body_end {
+            v.push(Item::Req { i: x + 1 });
+        }
+        if v.len() > 2 && rng.chance(1, 3) {
+            let rest = v.split_off(1);
+            push(&mut rounds, 3, v, false, rng);
+            push(&mut rounds, 3, rest, false, rng);
+        } else {
+            push(&mut rounds, *rng.pick(&[0u64, 3, 120]), v, false, rng);
+        }
+    }
+    if follow && !(follow_with_body_end) {
+        push(&mut rounds, 3, vec![], false, rng);
+        push(&mut rounds, *rng.pick(&[0u64, 3, 120]), vec![Item::Req { i: x + 1 }], false, rng);
+    }
+    push(&mut rounds, 3, vec![], false, rng);
+    push(&mut rounds, 3, vec![], false, rng);
+    let k = rounds.len();
+    match rng.below(6) {
+        0 => rounds[k - 1].rd = 1,
+        1 => rounds[k - 2].rd = 1,
+        _ => {}
+    }
+    push(&mut rounds, *rng.pick(&[3u64, 1201, 3201]), vec![], false, rng);
+    push(&mut rounds, 3, vec![], false, rng);
+    Case { cfg, reqs, hs, rounds }
+}
+
 fn gen_case(rng: &mut Rng) -> (Case, bool) {
     if rng.chance(1, 12) {
         return (gen_early_response(rng), false);
+    }
+    if rng.chance(1, 8) {
+        return (gen_expect(rng), false);
     }
     let malformed = rng.chance(20, 100);
     let cfg = Cfg {
@@ -247,7 +377,7 @@ fn emit_case(em: &mut Emitter, id: String, c: Case, fx: Fixes, extra_tags: Vec<S
     }
     for h in &c.hs {
         for a in h {
-            tags.push(format!("h:{}", match a { HAct::Pend => "pend", HAct::Read => "read", HAct::ReadAll => "readall", HAct::Drop => "drop", HAct::Until { .. } => "until", HAct::Respond { .. } => "respond", HAct::Fail { body: 0, .. } => "fail-empty", HAct::Fail { .. } => "fail-body" }));
+            tags.push(format!("h:{}", match a { HAct::Pend => "pend", HAct::Read => "read", HAct::ReadAll => "readall", HAct::Drop => "drop", HAct::Until { .. } => "until", HAct::Respond { .. } => "respond", HAct::Fail { body: 0, .. } => "fail-empty", HAct::Fail { .. } => "fail-body", HAct::Expect { status: 0, pend: 0, .. } => "expect-accept", HAct::Expect { status: 0, .. } => "expect-pend-accept", HAct::Expect { pend: 0, .. } => "expect-reject", HAct::Expect { .. } => "expect-pend-reject" }));
         }
     }
     if c.rounds.iter().any(|r| r.arrive.iter().any(|i| matches!(i, Item::Bad))) {
@@ -282,7 +412,8 @@ fn emit_case(em: &mut Emitter, id: String, c: Case, fx: Fixes, extra_tags: Vec<S
     tags.sort();
     tags.dedup();
     let tr = truth(&c);
-    let early = (0..c.reqs.len()).any(|i| c.reqs[i].body != 0 && !c.hs[i].iter().any(|a| matches!(a, HAct::ReadAll)));
+    let ehs = eff_hs(&c);
+    let early = (0..c.reqs.len()).any(|i| c.reqs[i].body != 0 && !ehs[i].iter().any(|a| matches!(a, HAct::ReadAll)));
     let nontrivial = c.reqs.len() >= 2 && tr.head_round.iter().filter(|h| h.is_some()).count() >= 2 || early;
     let (expect, showv, ok, why) = match r {
         Ok(o) => {
@@ -307,7 +438,7 @@ fn emit_case(em: &mut Emitter, id: String, c: Case, fx: Fixes, extra_tags: Vec<S
     em.emit(CaseOut {
         id,
         input: serde_json::to_value(&c).unwrap(),
-        coq_case: Some(coq_case(&c, fx)),
+        coq_case: Some(coq_xcase(&c, fx)),
         expect,
         sig: showv.clone(),
         impl_show: showv,
